@@ -8,7 +8,7 @@ PROP = {
     'checker_vo': 'parse/ParseCheck.vo',
     'scenario': 'c16',
     'evals': ['agrees', 'c16_ok'],
-    'extra': {'quick': {'per_fn': 1500, 'explore': 1}, 'thorough': {'per_fn': 20000, 'explore': 12}},
+    'extra': {'quick': {'per_fn': 1200, 'explore': 1}, 'thorough': {'per_fn': 20000, 'explore': 12}},
     'replay_header': P_HEADER,
     'replay_footer': "Eval vm_compute in (failing agrees base_index cases).\nEval vm_compute in (failing c16_ok base_index cases).",
     'stats_keys': ['per_fn', 'debug_build', 'fn_outcome_distribution', 'origin_distribution', 'multibyte_inputs',
